@@ -98,8 +98,13 @@ func runAsm(e *emitter, kind int64, c []int64) {
 			e.rec(0)
 			return
 		}
-		cfg := gmars.SimulatorConfig{Mode: gmars.SimulatorMode(c[0]), CoreSize: gmars.Address(c[1]), Processes: 8, Cycles: 8,
-			ReadLimit: gmars.Address(c[1]), WriteLimit: gmars.Address(c[1])}
+		// the listing depends on the dialect and the core size only: every other setting is varied
+		var h int64
+		for _, v := range c {
+			h = (h*31 + v) % 1000003
+		}
+		cfg := gmars.SimulatorConfig{Mode: gmars.SimulatorMode(c[0]), CoreSize: gmars.Address(c[1]), Processes: gmars.Address(1 + h%9),
+			Cycles: gmars.Address(1 + h%7), ReadLimit: gmars.Address(1 + h%(2*c[1])), WriteLimit: gmars.Address(1 + (h/7)%(2*c[1]))}
 		start, n := int(c[2]), int(c[3])
 		c = c[4:]
 		var code []gmars.Instruction
